@@ -12,6 +12,7 @@ import (
 	"sort"
 	"strings"
 
+	"github.com/BurntSushi/toml"
 	"github.com/go-redis/redis/v8"
 	"github.com/refraction-networking/conjure/pkg/phantoms"
 	"github.com/refraction-networking/conjure/pkg/station/geoip"
@@ -137,3 +138,21 @@ func (rm *RegistrationManager) VerifIdentifier(d *DecoyRegistration) string {
 
 // VerifSource is a helper to take the address of a source constant.
 func VerifSource(s pb.RegistrationSource) *pb.RegistrationSource { return &s }
+
+// VerifDecodeConfig decodes a station TOML file into c without post-processing.
+func VerifDecodeConfig(path string, c *Config) error {
+	_, err := toml.DecodeFile(path, c)
+	return err
+}
+
+// VerifParseBlocklists calls ParseBlocklists whatever its signature returns.
+func VerifParseBlocklists(c *RegConfig) (err error) {
+	var f any = c.ParseBlocklists
+	switch g := f.(type) {
+	case func():
+		g()
+	case func() error:
+		err = g()
+	}
+	return err
+}
